@@ -435,7 +435,8 @@ def run_table(chk, llb, model, base):
 CMD_SH = r"""#!/bin/sh
 # cmd.sh NAME TAG KIND NOUT out... -- in... [-H hdr...]
 # deterministic command of the generated manifests: every output = its own name, NAME TAG, then the inputs and
-# headers concatenated.  Fails (before writing anything) iff an input or header contains the line FAIL.
+# headers concatenated.  Fails (before writing anything) iff an input or header contains the line FAIL; fails AFTER
+# writing and stamping its outputs iff one contains the line FAILLATE (compile, then validate).
 # restat: an output whose content would not change is left alone.  depfile: writes <first output>.d.
 # Outputs that were written are stamped with the next tick of the sandbox's logical clock.
 name=$1; tag=$2; kind=$3; n=$4; shift 4
@@ -447,8 +448,10 @@ for a in "$@"; do
   if [ "$a" = "-H" ]; then h=1; elif [ $h = 1 ]; then hdrs="$hdrs $a"; else ins="$ins $a"; fi
 done
 echo "$name" >> runlog
+late=0
 for f in $ins $hdrs; do
   if grep -qx FAIL "$f"; then exit 1; fi
+  if grep -qx FAILLATE "$f"; then late=1; fi
 done
 tmp=.tmp.$name
 { echo "$name $tag"; cat $ins $hdrs; } > $tmp || { rm -f $tmp; exit 1; }
@@ -466,7 +469,7 @@ if [ -n "$touched" ]; then
   t=$(cat .clock); t=$((t+1)); echo $t > .clock
   touch -d "@$((%d + t / 2)).$(( (t %% 2) * 5 ))00000000" $touched
 fi
-exit 0
+exit $late
 """ % BASE_S
 
 
@@ -537,7 +540,7 @@ class World:
     def targets(self):
         if self.defaults:
             return list(self.defaults)
-        used = set(i for c in self.cmds for i in c.exp + c.imp + c.oo) | set(i for v in self.phony.values() for i in v)
+        used = set(i for c in self.cmds for i in c.exp + c.imp + c.oo + c.hdrs) | set(i for v in self.phony.values() for i in v)
         return [o for c in self.cmds for o in c.outs if o not in used] + [a for a in self.phony if a not in used]
 
     def reachable(self):
@@ -569,7 +572,7 @@ class World:
         else:
             c = prod[node]
             parts = [self.expected_content(i, memo) for i in self.files_read(c) + c.hdrs]
-            if any(p is None for p in parts) or any("FAIL" in p.split("\n") for p in parts):
+            if any(p is None for p in parts) or any("FAIL" in p.split("\n") or "FAILLATE" in p.split("\n") for p in parts):
                 r = None
             else:
                 r = "== %s\n%s t%d\n%s" % (node, c.name, c.tag, "".join(parts))
@@ -641,6 +644,15 @@ def gen_world(rng):
             oo = ["ord0"] if (rng.random() < 0.5 or not rest) else rng.sample(rest, 1)
         kind = rng.choice(["plain", "plain", "plain", "restat", "generator", "depfile"])
         hdrs = rng.sample(["h0", "h1"], rng.randint(1, 2)) if kind == "depfile" else []
+        if kind == "depfile":
+            # the generated-header shape: a file named by the depfile that the manifest declares ORDER-ONLY
+            # (so that it exists before the first compile); its only change-tracking edge is the discovered one
+            gens = [o for d in w.cmds for o in d.outs if o not in exp + imp + oo]
+            if gens and rng.random() < 0.6:
+                g = rng.choice(gens)
+                oo.append(g); hdrs.append(g)
+            if rng.random() < 0.35:
+                oo.append(hdrs[0])
         pool = rng.choice([None, None, None, "p1", "console"])
         w.cmds.append(Cmd(name, outs, exp, imp, oo, kind, hdrs, pool))
         avail += outs
@@ -797,7 +809,7 @@ def apply_op(rng, w, sb_list, nops_done):
                 w.defaults.append(c.outs[0])
         op.update(cmd=c.name, must_run=[c.name])
     elif kind == "remove_statement":
-        used = set(i for c in w.cmds for i in c.exp + c.imp + c.oo) | set(i for v in w.phony.values() for i in v) | set(w.defaults)
+        used = set(i for c in w.cmds for i in c.exp + c.imp + c.oo + c.hdrs) | set(i for v in w.phony.values() for i in v) | set(w.defaults)
         cands = [c for c in w.cmds if not any(o in used for o in c.outs)]
         if not cands or len(w.cmds) <= 2:
             return None
@@ -808,7 +820,7 @@ def apply_op(rng, w, sb_list, nops_done):
         c = rng.choice(reach)
         idx = w.cmds.index(c)
         avail = [n for n in w.src if n.startswith("s") and n not in frozen] + [o for d in w.cmds[:idx] for o in d.outs]
-        avail = [a for a in avail if a not in c.exp + c.imp + c.oo]
+        avail = [a for a in avail if a not in c.exp + c.imp + c.oo + c.hdrs]
         if not avail:
             return None
         new = rng.choice(avail)
@@ -822,11 +834,12 @@ def apply_op(rng, w, sb_list, nops_done):
     elif kind == "rewire_implicit":
         c = rng.choice(reach)
         idx = w.cmds.index(c)
-        if c.imp and rng.random() < 0.5:
-            c.imp.pop(rng.randrange(len(c.imp)))
+        removable = [i for i in c.imp if i not in c.hdrs]
+        if removable and rng.random() < 0.5:
+            c.imp.remove(rng.choice(removable))
         else:
             avail = [n for n in w.src if n.startswith("s") and n not in frozen] + [o for d in w.cmds[:idx] for o in d.outs]
-            avail = [a for a in avail if a not in c.exp + c.imp + c.oo]
+            avail = [a for a in avail if a not in c.exp + c.imp + c.oo + c.hdrs]
             if not avail:
                 return None
             c.imp.append(rng.choice(avail))
@@ -855,8 +868,9 @@ def apply_op(rng, w, sb_list, nops_done):
         if not cands:
             return None
         n = rng.choice(cands)
-        op.update(node=n, saved=w.src[n], failing=[c.name for c in readers(n, ("exp", "imp"))])
-        w.src[n] = "FAIL\n"
+        late = rng.random() < 0.5
+        op.update(node=n, saved=w.src[n], failing=[c.name for c in readers(n, ("exp", "imp"))], late=late)
+        w.src[n] = "FAILLATE\n" if late else "FAIL\n"
         for sb in sb_list:
             sb.write_source(n, w.src[n])
     for sb in sb_list:
@@ -996,7 +1010,19 @@ def history(llb, d, seed, jobs, db, keep_going, with_ninja, want_clean):
             # retried next time
             rc2, ran2, txt2, nran2 = build_all("again, not repaired")
             if rc2 == 0 or not (failing & set(ran2)):
-                findings.append(("failed-not-retried", "the failing command(s) %s were not retried by the next build (ran %s, exit status %d)" % (sorted(failing), ran2, rc2),
+                tried = [c for c in w.cmds if c.name in failing and c.name in ran]
+                if op.get("late") and tried and all(c.kind == "generator" for c in tried):
+                    # known: a generator command that failed after writing its output takes the timestamp shortcut
+                    if not any(k == "generator-failed-not-retried" for (k, _, _) in known):
+                        known.append(("generator-failed-not-retried", "generator command(s) %s failed after writing their outputs and were not retried by the next build (ran %s, exit status %d)" % (
+                            sorted(c.name for c in tried), ran2, rc2), rp(dict(ran=ran2, text=txt2[-800:]))))
+                else:
+                    findings.append(("failed-not-retried", "nothing was edited after a build in which %s failed%s, yet the next build did not retry them (ran %s, exit status %d)" % (
+                        sorted(failing & set(ran)), " AFTER writing their outputs" if op.get("late") else "", ran2, rc2), rp(dict(ran=ran2, text=txt2[-800:]))))
+                    break
+            wrong2 = [r for r in ran2 if r in hard]
+            if wrong2 and rc2 != 0:
+                findings.append(("failed-dependent-ran", "the build after a failed one (nothing edited) executed dependents %s of the failing command(s) %s" % (wrong2, sorted(failing)),
                                  rp(dict(ran=ran2, text=txt2[-800:]))))
                 break
             # repair
